@@ -188,6 +188,16 @@ func c01NewCell(kind string) c01Model {
 				verifAssert(len(mgr.lockCh) == 0, "shared variable: lock is released outside critical sections")
 				return distsys.VerifLocalValue(mgr.res), true
 			}}
+	case "sharedindexed":
+		init := c01Ints("init", 2)
+		fn := tla.MakeRecord([]tla.RecordField{{Key: c01Keys[0], Value: init[0]}, {Key: c01Keys[1], Value: init[1]}})
+		mgr := NewLocalSharedManager(fn)
+		r := mgr.MakeLocalShared()
+		return &c01Cell{kind: kind, res: r, committed: init, working: append([]tla.Value{}, init...), nidx: 2,
+			direct: func(i int) (tla.Value, bool) {
+				verifAssert(len(mgr.lockCh) == 0, "shared variable: lock is released outside critical sections")
+				return distsys.VerifLocalValue(mgr.res).ApplyFunction(c01Keys[i]), true
+			}}
 	}
 	panic("unknown cell kind " + kind)
 }
@@ -488,7 +498,7 @@ func c01Run(kinds []string, K int, faultBudget int) {
 	verifReach("end")
 }
 
-var c01Kinds = []string{"local", "indexedlocal", "incmap", "hashmap", "shared", "inputchan", "outputchan", "file"}
+var c01Kinds = []string{"local", "indexedlocal", "incmap", "hashmap", "shared", "inputchan", "outputchan", "file", "sharedindexed"}
 
 // every resource kind alone: K = 3 operations, one fault
 func HarnessC01_Single() {
